@@ -66,25 +66,24 @@ theorem C11_override_step (u : U) (level vk b : Nat) (h : round u level vk = som
   obtain ⟨h1, h2, h3, h4⟩ := round_spec u level vk b h
   exact ⟨h1, versionsGreater_sub _ _ _ b h2, h3, h4⟩
 
-/-- … and it is upward: not below the resolved version when the version list is sorted by the comparator
-(`slices.SortFunc`'s contract, which needs the comparator to be a total preorder), strictly above it when
-moreover no two listed versions compare equal.  Without sortedness the model can move down
-(`C11_override_unsorted_witness`); with equal-comparing spellings it can move sideways
-(`C11_override_equal_version_witness`). -/
-theorem C11_override_upward_partial (u : U) (level vk b : Nat) (h : round u level vk = some b) :
-    (Sorted u.rank u.vs → u.rank vk ≤ u.rank b) ∧ (StrictSorted u.rank u.vs → u.rank vk < u.rank b) := by
+/-- … and it is STRICTLY upward when the version list is sorted by the comparator (`slices.SortFunc`'s contract,
+which needs the comparator to be a total preorder): since fix e2a59457 every spelling that compares equal to the
+resolved version is skipped, so equal-comparing versions (`1.0` / `1.0.0`) are no obstacle any more.  Without
+sortedness the model can move down (`C11_override_unsorted_witness`). -/
+theorem C11_override_upward_partial (u : U) (level vk b : Nat) (h : round u level vk = some b)
+    (hs : Sorted u.rank u.vs) : u.rank vk < u.rank b := by
   obtain ⟨_, h2, _, _⟩ := round_spec u level vk b h
-  exact ⟨fun hs => versionsGreater_ge _ _ _ hs b h2, fun hs => versionsGreater_gt _ _ _ hs b h2⟩
+  exact versionsGreater_gt _ _ _ hs b h2
 
 theorem C11_override_unsorted_witness :
     round ⟨[5, 1], id, fun _ _ => dPatch, 1, fun _ x => x = 5⟩ lMajor 5 = some 1 := by decide
 
-/-- two spellings of one version (identifiers 0 and 1, both rank 0), a record whose explicit `versions` list names
-only the first: the scan "upgrades" 1.0 to 1.0.0.  Reachable only through an advisory that lists version strings;
-a range-only advisory cannot tell equal-comparing versions apart. -/
-theorem C11_override_equal_version_witness :
+/-- regression example of fix e2a59457 (formerly the witness of C11/override-equal-version): two spellings of one
+version (identifiers 0 and 1, both rank 0) and a record whose explicit `versions` list names only the first.  The
+second spelling is no candidate any more; the override goes to the next real version. -/
+theorem C11_override_equal_version_fixed :
     let u : U := ⟨[0, 1, 2], fun x => if x = 2 then 1 else 0, fun a b => if a = b then dSame else dPatch, 1, fun _ x => x = 0⟩
-    Sorted u.rank u.vs ∧ round u lMajor 0 = some 1 ∧ u.rank 0 = u.rank 1 := by
+    Sorted u.rank u.vs ∧ versionsGreater u.rank u.vs 0 = [2] ∧ round u lMajor 0 = some 2 := by
   refine ⟨by unfold Sorted; decide, by decide, by decide⟩
 
 /-- The level applies to the ORIGINAL base (one package): after any number of rounds the version reached is
@@ -101,15 +100,14 @@ theorem C11_cumulative_partial (u : U) (level : Nat) (L : DiffClassLaws u.diff) 
     | some b =>
       simp only
       obtain ⟨_, _, h3, _⟩ := C11_override_step u level vk b hr
-      obtain ⟨h4, _⟩ := C11_override_upward_partial u level vk b hr
+      have h4 := C11_override_upward_partial u level vk b hr hs
       obtain ⟨i1, i2⟩ := ih b
-      exact ⟨Nat.le_trans (h4 hs) i1, allows_trans u.diff L level vk b _ h3 i2⟩
+      exact ⟨Nat.le_trans (Nat.le_of_lt h4) i1, allows_trans u.diff L level vk b _ h3 i2⟩
 
 /-- Termination (one package): every round moves strictly up inside the finite version list, so after at most
-(number of versions above the start) rounds no round patches anything.  Needs `StrictSorted`: with three
-equal-comparing spellings and advisories that list version strings the real loop could alternate between
-spellings forever; the generators use at most two spellings per version, for which it cannot. -/
-theorem C11_terminates_partial (u : U) (level : Nat) (hs : StrictSorted u.rank u.vs) (fuel vk : Nat)
+(number of versions above the start) rounds no round patches anything.  Sortedness is enough: since fix e2a59457
+no round can move sideways between equal-comparing spellings. -/
+theorem C11_terminates_partial (u : U) (level : Nat) (hs : Sorted u.rank u.vs) (fuel vk : Nat)
     (hf : above u.rank u.vs vk ≤ fuel) : round u level (loop u level fuel vk) = none := by
   induction fuel generalizing vk with
   | zero =>
@@ -118,7 +116,7 @@ theorem C11_terminates_partial (u : U) (level : Nat) (hs : StrictSorted u.rank u
     | none => rfl
     | some b =>
       obtain ⟨_, hb, _, _⟩ := C11_override_step u level vk b hr
-      have := above_lt u.rank u.vs vk b hb ((C11_override_upward_partial u level vk b hr).2 hs)
+      have := above_lt u.rank u.vs vk b hb (C11_override_upward_partial u level vk b hr hs)
       omega
   | succ f ih =>
     simp only [loop]
@@ -127,10 +125,10 @@ theorem C11_terminates_partial (u : U) (level : Nat) (hs : StrictSorted u.rank u
     | some b =>
       simp only
       obtain ⟨_, hb, _, _⟩ := C11_override_step u level vk b hr
-      have := above_lt u.rank u.vs vk b hb ((C11_override_upward_partial u level vk b hr).2 hs)
+      have := above_lt u.rank u.vs vk b hb (C11_override_upward_partial u level vk b hr hs)
       exact ih b (by omega)
 
-theorem C11_terminates_bound_partial (u : U) (level : Nat) (hs : StrictSorted u.rank u.vs) (vk : Nat) :
+theorem C11_terminates_bound_partial (u : U) (level : Nat) (hs : Sorted u.rank u.vs) (vk : Nat) :
     round u level (loop u level u.vs.length vk) = none :=
   C11_terminates_partial u level hs _ vk (above_le _ _ _)
 
@@ -181,7 +179,7 @@ example : DiffClassLaws semverDiff := by
 
 /-- versions 1.0.0 1.0.1 1.1.0 2.0.0 (identifier = rank); vulnerability 0 affects < 1.0.1, vulnerability 1 affects 1.0.1 only -/
 def exU : U := ⟨[100, 101, 110, 200], id, semverDiff, 2, fun v r => if v = 0 then r < 101 else r = 101⟩
-example : StrictSorted exU.rank exU.vs := by unfold StrictSorted exU; decide
+example : Sorted exU.rank exU.vs := by unfold Sorted exU; decide
 example : round exU lMinor 100 = some 101 ∧ round exU lMinor 101 = some 110 ∧ loop exU lMinor 4 100 = 110 := by decide
 example : round exU lPatch 101 = none := by decide   -- 1.1.0 is a minor step from 1.0.1: the scan breaks
 
@@ -197,7 +195,7 @@ not None, and with fewer of the vulnerabilities that affect the resolved version
 theorem C11_override_multi_step (u : MU) (res : Res) (pins : Pins) (p b : Nat) (h : stepP u res pins p = some b) :
     pins.getD p none = some b ∨
     ∃ r, res.getD p none = some r ∧ u.level p ≠ lNone ∧ b ∈ u.vs p ∧ allows (u.level p) (u.diff p r b) = true ∧
-      (Sorted (u.rank p) (u.vs p) → u.rank p r ≤ u.rank p b) ∧ (StrictSorted (u.rank p) (u.vs p) → u.rank p r < u.rank p b) ∧
+      (Sorted (u.rank p) (u.vs p) → u.rank p r < u.rank p b) ∧
       ((vulnsAt u p r).filter (u.aff · p b)).length < (vulnsAt u p r).length := by
   unfold stepP at h
   cases hr : res.getD p none with
@@ -210,21 +208,20 @@ theorem C11_override_multi_step (u : MU) (res : Res) (pins : Pins) (p b : Nat) (
       simp only [hp, Option.some.injEq] at h
       subst h
       obtain ⟨h1, h2, h3, h4⟩ := pickP_spec u p r c hp
-      exact Or.inr ⟨r, rfl, h1, versionsGreater_sub _ _ _ c h2, h3, fun hs => versionsGreater_ge _ _ _ hs c h2,
-        fun hs => versionsGreater_gt _ _ _ hs c h2, h4⟩
+      exact Or.inr ⟨r, rfl, h1, versionsGreater_sub _ _ _ c h2, h3, fun hs => versionsGreater_gt _ _ _ hs c h2, h4⟩
 
 /-- Termination for several packages, any resolver that honours pins (`HonoursPinsM`: a pinned package resolves to
 its pin or is absent; everything else is unconstrained): the sum over the packages of "versions above the
 requirement" (all versions plus one while there is none) drops in every round that patches something, so the
-loop reports `done` — it never runs out of fuel — whenever the fuel exceeds that sum.  Needs `StrictSorted`
-per package (see `C11_terminates_partial`). -/
+loop reports `done` — it never runs out of fuel — whenever the fuel exceeds that sum.  Needs each package's
+version list sorted by its comparator (see `C11_terminates_partial`). -/
 theorem C11_terminates_multi_partial (u : MU) (resolve : Pins → Res) (hh : HonoursPinsM resolve)
-    (hs : ∀ p, StrictSorted (u.rank p) (u.vs p)) (fuel : Nat) (pins : Pins) (hf : measure u pins < fuel) :
+    (hs : ∀ p, Sorted (u.rank p) (u.vs p)) (fuel : Nat) (pins : Pins) (hf : measure u pins < fuel) :
     (loop u resolve fuel pins 0).done = true := loop_done u resolve hh hs fuel pins 0 hf
 
 /-- in particular with the fuel the driver uses: one more than all versions and packages together -/
 theorem C11_terminates_multi_bound_partial (u : MU) (resolve : Pins → Res) (hh : HonoursPinsM resolve)
-    (hs : ∀ p, StrictSorted (u.rank p) (u.vs p)) (pins : Pins) :
+    (hs : ∀ p, Sorted (u.rank p) (u.vs p)) (pins : Pins) :
     (loop u resolve (((List.range u.np).map fun p => (u.vs p).length + 1).sum + 1) pins 0).done = true :=
   loop_done u resolve hh hs _ pins 0 (by have := measure_le u pins; omega)
 
